@@ -251,6 +251,7 @@ def run_mode(ctx, shape, mode, graph, nbeh, seed):
             traces.append({'api': [t for t in trace[1:]], 'init': trace[0], 'evs': log.events})
 
     d.after_call = after_call
+    d.no_bulk = True
     d.on_behaviour = on_behaviour
     session.Adapter.after_project = staticmethod(lambda: log.add('quiesce', 'A1', 'none'))
     try:
